@@ -136,3 +136,76 @@ func skippedWriteVerified(p *Prog, rule string) *RuleResult {
 	r.Floor(1)
 	return r
 }
+
+// ---------------------------------------------------------------------------------------------
+// C17/R7 dotdot-scan-covers-last-segment.
+//
+// PathRelativeToOutbase keeps outputs inside the output directory by rewriting the leading `../`
+// segments of the outbase-relative directory to `_.._/`. It counts them with
+// `HasPrefix(dir[3*k:], "../")`. A directory that consists of `..` segments only ("..", "../..")
+// ends without a separator, so its last segment is counted only if a separator was appended to the
+// scanned string first (or the scan tests for a bare ".." as well). Without that, a file that sits
+// directly in the parent of outbase is written to `<outdir>/../name`, outside the output directory.
+func c17DotDotScan(p *Prog) *RuleResult {
+	r := NewRule("C17/R7 dotdot-scan-covers-last-segment", "the scan that rewrites leading `../` segments of an output's relative directory also covers a final `..` segment that is not followed by a separator")
+	n := 0
+	for _, fn := range p.ModuleFuncs() {
+		if pkgPathOf(fn) != modPath+"/internal/bundler" && pkgPathOf(fn) != modPath+"/internal/linker" {
+			continue
+		}
+		k := 0
+		eachInstr(fn, func(b *ssa.BasicBlock, in ssa.Instruction) {
+			c, ok := in.(*ssa.Call)
+			if !ok || calleeFullName(c) != "strings.HasPrefix" || len(c.Call.Args) != 2 {
+				return
+			}
+			if s, ok := constString(c.Call.Args[1]); !ok || s != "../" {
+				return
+			}
+			if !blockInLoop(b) {
+				return
+			}
+			n++
+			k++
+			r.Instances++
+			key := fmt.Sprintf("%s scan for leading ../ segments #%d", FuncName(fn), k)
+			sepAppended, bareTested := false, false
+			backSlice(c.Call.Args[0], func(v ssa.Value) bool {
+				if bo, ok := v.(*ssa.BinOp); ok && bo.Op == token.ADD {
+					if s, ok := constString(bo.Y); ok && s == "/" {
+						sepAppended = true
+					}
+				}
+				return true
+			})
+			eachInstr(fn, func(b2 *ssa.BasicBlock, in2 ssa.Instruction) {
+				if bo, ok := in2.(*ssa.BinOp); ok && (bo.Op == token.EQL || bo.Op == token.NEQ) {
+					if s, ok := constString(bo.Y); ok && s == ".." {
+						bareTested = true
+					}
+					if s, ok := constString(bo.X); ok && s == ".." {
+						bareTested = true
+					}
+				}
+				if c2, ok := in2.(*ssa.Call); ok && calleeFullName(c2) == "strings.HasSuffix" && len(c2.Call.Args) == 2 {
+					if s, ok := constString(c2.Call.Args[1]); ok && (s == ".." || s == "/..") {
+						bareTested = true
+					}
+				}
+			})
+			switch {
+			case sepAppended:
+				r.OK(key, true, "a separator is appended to the scanned directory, so every `..` segment is followed by `/`")
+			case bareTested:
+				r.OK(key, true, "a bare `..` is tested separately")
+			default:
+				r.Fail(key, p.Pos(c.Pos()), "the scanned directory is not terminated by a separator and a bare `..` is not tested: for a file that sits directly in the parent directory of outbase (relative directory `..`) nothing is rewritten and the output path becomes <outdir>/../name, outside the output directory")
+			}
+		})
+	}
+	if !r.Anchor("scans for leading ../ segments in output path computation", n >= 1) {
+		return r
+	}
+	r.Floor(1)
+	return r
+}
